@@ -904,6 +904,10 @@ func randURI(r *Rng) string {
 }
 
 func randEmail(r *Rng) string {
+	if r.Intn(6) == 0 {
+		// RFC 2821 4.1.2: the local part may be a quoted string (quoted pairs \" and \\ inside)
+		return "\"" + randText(r, []string{"a", ", ", ",", " ", "\\\\", "\\\"", "x", "."}, 0, 6) + "\"@" + randDNS(r)
+	}
 	return randText(r, []string{"a", "b", "x", ".", "+", "_", "9"}, 1, 8) + "@" + randDNS(r)
 }
 
@@ -1864,11 +1868,11 @@ func (g *c03) genDerStream() {
 		san(fmt.Sprintf("ip-%d-octets", n), false, []encSAN{{7, r.Bytes(n)}})
 	}
 	san("ip-4-and-16", true, []encSAN{{7, []byte{0, 0, 0, 0}}, {7, make([]byte, 16)}, {7, []byte{255, 255, 255, 255}}})
-	san("dns-empty", false, []encSAN{{2, []byte("")}})
-	san("dns-empty-twice", false, []encSAN{{2, []byte("")}, {2, []byte("")}})
-	san("email-empty", false, []encSAN{{1, []byte("")}})
-	san("uri-empty", false, []encSAN{{6, []byte("")}})
-	san("dns-space", false, []encSAN{{2, []byte(" ")}})
+	san("dns-empty", true, []encSAN{{2, []byte("")}})
+	san("dns-empty-twice", true, []encSAN{{2, []byte("")}, {2, []byte("")}})
+	san("email-empty", true, []encSAN{{1, []byte("")}})
+	san("uri-empty", true, []encSAN{{6, []byte("")}})
+	san("dns-space", true, []encSAN{{2, []byte(" ")}})
 	san("dns-non-ia5", false, []encSAN{{2, []byte("b\xfccher.example")}})
 	san("email-non-ia5", false, []encSAN{{1, []byte("\x80@x.example")}})
 	san("uri-non-ia5", false, []encSAN{{6, []byte("http://x.example/\xe9")}})
@@ -1877,7 +1881,7 @@ func (g *c03) genDerStream() {
 		"HTTP://UPPER.example/%7e", "http://a.example:80a/", "urn:x", "http://user:pw@h.example/", "http://[2001:db8::1]/", "http://-a.example/", "x://h.example./"} {
 		san(fmt.Sprintf("uri-odd-%d", i), false, []encSAN{{6, []byte(u)}})
 	}
-	san("separator-in-dns", false, []encSAN{{2, []byte("a.example, b.example")}})
+	san("separator-in-dns", true, []encSAN{{2, []byte("a.example, b.example")}})
 	san("separator-in-email", true, []encSAN{{1, []byte("\"a, evil.example, b\"@x.example")}})
 	san("long-tag", false, nil, []byte{0x9f, 0x21, 0x01, 0x41})
 	san("universal-tags", false, nil, []byte{0x0c, 0x01, 0x41}, []byte{0x02, 0x01, 0x05}, []byte{0x16, 0x01, 0x41})
